@@ -237,7 +237,7 @@ def _prefix_related(elems):
 def r17_c(ctx):
     repo = ctx.repo
     rr = RuleResult('R17.c', 'no order-sensitive use of an unordered collection: every iteration over a set is '
-                    'membership-like or order-insensitive, or its elements cannot compete for the same match', floor=2)
+                    'membership-like or order-insensitive, or its elements cannot compete for the same match', floor=1)
     sites = []
     for m in repo.modules.values():
         for n in ast.walk(m.tree):
